@@ -38,6 +38,9 @@ type Model struct {
 	cancelled [2][NTargets]bool // the builder's current mocker for t carries the cancelled flag
 	zombie    [2][NTargets]bool // re-applied through the kept handle after a Cancel/Reset
 	outerSeen [2]bool           // the builder has been asked for Struct(&S{}) (a struct-level handle exists)
+	// loopTainted[b]: builder b's mocker of Loop went through a refused origin apply; what the mocker
+	// object remembers of that attempt is not specified, so b leaves Loop alone until its next Reset
+	loopTainted [2]bool
 }
 
 // Resolve maps the g2 targets according to the builder's pending override.
@@ -60,6 +63,16 @@ func (m *Model) Enabled(op Op) bool {
 		if op.T != TG && op.T != TF1 {
 			return false
 		}
+	case KApplyORefused:
+		// only while nobody mocks Loop (goom unpatches a live mock before it tries the new one, and what
+		// a refusal then leaves of the old mock is C13's subject); the builder's own mocker must be fresh
+		// or cancelled, and the handle is a fresh lookup
+		if op.T != TLoop || op.Retained || op.Kept || op.Outer || len(m.Owners(TLoop)) > 0 {
+			return false
+		}
+	}
+	if op.T == TLoop && (op.K == KApplyO || m.loopTainted[op.B]) {
+		return false
 	}
 	t := m.Resolve(op)
 	c := &m.Cfg[op.B][t]
@@ -121,6 +134,7 @@ func (m *Model) Do(op Op) {
 			m.zombie[op.B][t] = false
 			m.clean(t)
 		}
+		m.loopTainted[op.B] = false
 		return
 	case KPkg:
 		m.PkgOver[op.B] = true
@@ -149,6 +163,10 @@ func (m *Model) Do(op Op) {
 		m.cancelled[op.B][op.T] = true
 	}
 	m.HasHandle[op.B][op.T] = op.K != KCancel
+	if op.K == KApplyORefused {
+		m.loopTainted[op.B] = true
+		m.HasHandle[op.B][op.T] = false
+	}
 	c := &m.Cfg[op.B][t]
 	switch op.K {
 	case KApplyA, KApplyB, KApplyO:
@@ -219,7 +237,7 @@ func (m *Model) Expect(t Target) []string {
 			if t == TXA {
 				out[i] = "panic:nil pointer"
 			} else {
-				out[i] = fmt.Sprint(a + Orig[t])
+				out[i] = fmt.Sprint(OrigOf(t, a))
 			}
 		case c.Kind == 1:
 			switch c.CB {
@@ -228,7 +246,7 @@ func (m *Model) Expect(t Target) []string {
 			case KApplyB:
 				out[i] = fmt.Sprint(a + 20000)
 			case KApplyO:
-				out[i] = fmt.Sprint(a + Orig[t] + 30000)
+				out[i] = fmt.Sprint(OrigOf(t, a) + 30000)
 			}
 		default:
 			if a == 1 && len(c.Clauses) > 0 {
